@@ -321,10 +321,15 @@ package collection
 //@   flag callbacks_noheap
 //@   call f#0: assert smH[m][k] && v == smV[m][k]
 //@   call f#1: assert smH[m][k] && v == smV[m][k]
+// once the callback answers false it is not called again (in either generation of the map)
+//@   ghost at entry: stopped = false
+//@   ghost at after f#0: stopped = !ret
+//@   ghost at after f#1: stopped = !ret
+//@   call f#*: assert !stopped
 //@   loop 0: modifies calls(f)
-//@   loop 0: invariant true
+//@   loop 0: invariant !stopped
 //@   loop 1: modifies calls(f)
-//@   loop 1: invariant true
+//@   loop 1: invariant !stopped
 
 //@ func (m *SafeMap) Size
 //@   property C16 C12
